@@ -1,9 +1,12 @@
 // Check C16: discovery lists hold only verified registrations and clients converge to them.
 //
-// Two complete in-process nodes: S serves two discovery services (c16-svc restricted to did:jwk, c16-open
-// unrestricted), C is a pure client whose service definitions point at S's public URL. Registrants are
-// did:jwk (and one did:key) identities owned by the harness; their credentials are JWT credentials signed
-// by a did:jwk issuer the harness owns, so both nodes can verify everything without DID hosting. The
+// Two complete in-process nodes: S serves three discovery services (c16-svc restricted to did:jwk and did:web,
+// c16-open unrestricted, c16-multi whose definition asks for three credentials), C is a pure client whose service
+// definitions point at S's public URL. Registrants are did:jwk (and one did:key) identities owned by the harness;
+// their credentials are JWT credentials signed by a did:jwk issuer the harness owns, so both nodes can verify
+// them without DID hosting. Some registrants and issuers are did:web identities whose documents the harness hosts
+// behind the nodes' did:web resolvers, with injected outages (c16_faults_test.go): entries S accepted that C cannot
+// verify yet, or ever. Presentations with several credentials are swept in c16_multi_test.go. The
 // harness posts presentations to S's public registration endpoint exactly as a remote node would, lets C
 // poll through its real updater (VerifClientRefresh), steers registrations into the window between the
 // timestamp read and the row read of the server's get (hook discovery.get.between), resets the server
@@ -1308,10 +1311,16 @@ func TestCheck(t *testing.T) {
 	r.SetRule("cases: seeded histories (~25 events) of register / refresh / retract / expire (SQL ageing) / defective registrations / server resets / client polls on one service of a real server node, " +
 		"with a real client node polling it (several independent server/client pairs run their histories in parallel); one case per final-set comparison at quiescence (non-trivial when the list is not empty), " +
 		"per defective registration (class x list size) and per racing episode (poll parked between the server's timestamp read and row read while 1-2 registrations are released before or after it; " +
-		"distinct by the released order; non-trivial when a registration fell into the window). After every event the server's list (GET after 0, GET after a random timestamp, its search) is compared with the reference model.")
+		"distinct by the released order; non-trivial when a registration fell into the window). After every event the server's list (GET after 0, GET after a random timestamp, its search) is compared with the reference model. " +
+		"Entries the client cannot verify: registrations whose signer or credential issuer is a did:web identity hosted by the harness are accepted by the server, then the document fails (connection error / 503 until a heal event; 404 / other key for good) " +
+		"before the client fetches the entry; one case per unverified-mix scenario (4-6 such entries, revoked-afterwards and verifiable ones stored by the client in a seeded order, on two services, outages ending in two steps; distinct by the order; " +
+		"the client's search must return exactly the entries it had a pass to verify). Several credentials: on a third service whose definition asks for three credentials, one case per (per-credential admission clause x index of the offending credential x expiry of its neighbours), " +
+		"each next to a control presentation that is accepted; the reference decision follows from the generated credentials.")
 	r.Require(r.Pick(150, 1500), r.Pick(60, 300))
 	r.Assume("SQLite with a single connection: database transactions are serialised; row-lock behaviour of other engines is not exercised")
 	r.Assume("expiry is virtual: presentation_expiration is aged by SQL in the server's table and in the client's copy; the JWT exp claim itself is not in the past")
+	r.Assume("did:web documents are served by a transport installed behind the nodes' did:web resolvers (no sockets); an outage is that transport failing the request; faults start and end only while no request is in flight")
+	r.Assume("the list of the third service (several credentials) is emptied in both databases after each sweep of 3 cases, to keep the client's periodic re-verification of everything it holds cheap")
 	r.Assume("a server reset is produced by emptying the service's rows and seed in the server's database (the state of a fresh database); once per server/client pair the server node is really reinstalled on an empty data directory")
 
 	// hosted did:web documents with injectable outages: what every node's did:web resolver is built on (set again before each node starts)
